@@ -76,6 +76,8 @@ class Sim:
         self.phase_pre = None
         self.stop_after = sc.get("stop_after")  # (round, phase) for truncated replays
         self.memo = {}
+        self.vad_discarded = set()
+        self.vad_refined = set()
 
     # -------------------------------------------------------------------------------------
     def violate(self, prop, cls, detail, **extra):
@@ -442,6 +444,8 @@ class Sim:
         algo = self.sc["algo"]
         S0, P0, U0 = pre["S"], pre["P"], pre["U"]
         D_code = S0 - S
+        if algo == "VOGP_AD":
+            self.vad_discarded |= D_code
         if "C02" not in self.props and "C11" not in self.props:
             return
         if P != P0:
@@ -653,6 +657,10 @@ class Sim:
             self.judge("C06", "acct")
             if int(a.sample_count) - pre["sample_count"] != len(rows):
                 self.violate("C06", "sample-count-drift", {"reported": int(a.sample_count) - pre["sample_count"], "requested": len(rows)})
+        if algo == "VOGP_AD" and "C18" in self.props:
+            if len(a.design_space.points) > pre["n_points"]:
+                self.ctx.probes["vad_refined"] += 1
+            self.check_refine(pre, S, P)
         if "C07" not in self.props:
             return
         acq = pre["acq"]
@@ -660,7 +668,6 @@ class Sim:
         if algo == "VOGP_AD":
             refined = len(a.design_space.points) > pre["n_points"]
             if refined:
-                self.ctx.probes["vad_refined"] += 1
                 if rows:
                     self.violate("C07", "sampled-and-refined", {})
         if acq is not None and not refined:
@@ -938,6 +945,38 @@ class Sim:
         return int(np.argmin(d))
 
     # -------------------------------------------------------------------------------------
+    def check_refine(self, pre, S, P):
+        """C18: a refined node is replaced by its 2^d children in the same set."""
+        a = self.a
+        ds = a.design_space
+        n0 = pre["n_points"]
+        kids = set(range(n0, len(ds.points)))
+        if not kids:
+            return
+        self.judge("C18", "refine")
+        gone = (pre["S"] | pre["P"]) - (S | P)
+        if len(gone) != 1:
+            self.violate("C18", "refinement-did-not-remove-exactly-the-parent", {"gone": sorted(gone), "kids": sorted(kids)})
+            return
+        parent = next(iter(gone))
+        self.vad_refined.add(parent)
+        if len(kids) != 2**ds.domain_dim:
+            self.violate("C18", "wrong-number-of-children", {"kids": sorted(kids)})
+        if parent in pre["S"]:
+            okset = S == (pre["S"] - {parent}) | kids and P == pre["P"]
+        else:
+            okset = P == (pre["P"] - {parent}) | kids and S == pre["S"]
+            self.ctx.probes["vad_refined_member_of_P"] += 1
+        if not okset:
+            self.violate("C18", "children-not-in-parents-set", {"parent": parent, "parent_in_S": parent in pre["S"], "S": sorted(S), "P": sorted(P)})
+        if pre["depths"][parent] >= ds.max_depth:
+            self.violate("C18", "refined-at-max-depth", {"parent": parent})
+        pr = pre["regions"][parent]
+        for k in sorted(kids):
+            if O.snapshot_region(ds.confidence_regions[k]).key() != pr.key():
+                self.violate("C18", "child-region-not-parents", {"child": k})
+                break
+
     def check_tiling(self, S, P):
         """C18 run-level invariants in exact dyadic arithmetic."""
         from fractions import Fraction
@@ -950,26 +989,19 @@ class Sim:
         if not (len(ds.cells) == n and len(ds.point_depths) == n and len(ds.confidence_regions) == n and ds.cardinality == n):
             self.violate("C18", "array-lengths-inconsistent", {})
             return
-        # leaves = nodes never refined; tracked by the runner through growth of the arrays
         act = S | P
-        cells = {i: [(Fraction(c[0]), Fraction(c[1])) for c in ds.cells[i]] for i in range(n)}
-        self.discarded_leaves = getattr(self, "discarded_leaves", set())
-        # classify: every node is active, discarded, or refined (has children)
-        self.refined = getattr(self, "refined", set())
-        known = act | self.discarded_leaves | self.refined
-        for i in range(n):
-            if i not in known:
-                # node vanished from S u P: either discarded this step or replaced by children
-                self.unknown_nodes = getattr(self, "unknown_nodes", set())
-                self.unknown_nodes.add(i)
+        if act & self.vad_refined:
+            self.violate("C18", "refined-node-still-active", {"nodes": sorted(act & self.vad_refined)})
+        if act & self.vad_discarded:
+            self.violate("C18", "discarded-node-active-again", {"nodes": sorted(act & self.vad_discarded)})
         for i in sorted(act):
             if ds.point_depths[i] > ds.max_depth:
                 self.violate("C18", "depth-beyond-max", {"i": i})
         for p in sorted(P):
             if ds.point_depths[p] != a.max_discretization_depth:
                 self.violate("C18", "pareto-node-not-at-max-depth", {"p": p, "depth": ds.point_depths[p]})
-        # volume + pairwise disjointness of active leaves and discarded leaves
         leaves = sorted(act | self.vad_discarded)
+        cells = {i: [(Fraction(float(c[0])), Fraction(float(c[1]))) for c in ds.cells[i]] for i in leaves}
         vol = Fraction(0)
         for i in leaves:
             v = Fraction(1)
@@ -986,9 +1018,9 @@ class Sim:
             if overlap:
                 break
         if overlap:
-            self.violate("C18", "active-cells-overlap", {"pair": overlap})
+            self.violate("C18", "leaf-cells-overlap", {"pair": overlap})
         if vol != 1:
-            self.violate("C18", "leaves-do-not-tile-unit-cube", {"volume": str(vol)})
+            self.violate("C18", "leaves-do-not-tile-unit-cube", {"volume": str(vol), "active": sorted(act), "discarded": sorted(self.vad_discarded)})
 
     # -------------------------------------------------------------------------------------
     def terminal_checks(self):
@@ -1048,14 +1080,11 @@ class Sim:
         stopped = False
         try:
             self.build()
-            self.vad_discarded = set()
             max_steps = int(sc.get("max_steps", 400))
             done = False
             steps = 0
             vopy_failed = False
             while not done and steps < max_steps:
-                S0, P0, _ = self.sets()
-                n0 = len(self.a.design_space.points) if sc["algo"] == "VOGP_AD" else 0
                 try:
                     done = bool(self.step())
                 except VopyFailure:
@@ -1064,14 +1093,6 @@ class Sim:
                 except StopIteration:
                     stopped = True
                     break
-                if sc["algo"] == "VOGP_AD":
-                    S1, P1, _ = self.sets()
-                    gone = (S0 | P0) - (S1 | P1)
-                    grew = len(self.a.design_space.points) > n0
-                    for g in gone:
-                        if grew and len(gone) == 1:
-                            continue
-                        self.vad_discarded.add(g)
                 steps += 1
             terminated = done and not vopy_failed
             if terminated:
